@@ -3,7 +3,7 @@ HOOKS = dict(guard='ADAPTAGRAMS_VERIF',
              baseline_off_cmd='make -C /repo/cola -k check',
              source_commits=['31cf118'], add_only=True)
 NOTES = ('See DESIGN.md. bin/check <Cnn> quick|thorough is the single entry point; exit 2 = check broken (never a VIOLATION). Hook commit in /repo: 31cf118 (H1: IncSolver step events in '
-         'libvpsc/solve_VPSC.{h,cpp}, guarded by ADAPTAGRAMS_VERIF, add-only). Repairs of genuine defects in /repo (unguarded "fix:" commits): a92ac61, a8080b2, 7e61e2d, 6e1feea, 43c244c, 41ebabe, e517133, f673802; '
+         'libvpsc/solve_VPSC.{h,cpp}, guarded by ADAPTAGRAMS_VERIF, add-only). Repairs of genuine defects in /repo (unguarded "fix:" commits): a92ac61, a8080b2, 7e61e2d, 6e1feea, 43c244c, 41ebabe, e517133, f673802, 7f15c51; '
          'recorded in known-findings.txt as "fixed:" lines; defects recorded rather than repaired are the "known:" lines of that file (DESIGN 6b).')
 
 chk('C16', 'model_checking',
@@ -140,7 +140,7 @@ chk('C20', 'model_checking',
     'Determinism.tla judges recorded pairs: the same call sequence twice with unrelated work and allocations in between must give bit-identical raw and displayed routes and solver positions (doubles recorded as '
     'limb triples, tuple equality = bit equality) and layout positions within 1e-9; a scene/problem translated by k*2^-10 must give the raw route translated exactly (lattice arithmetic) and displayed/solver results '
     'within 1e-9; under each of the 7 non-identity symmetries of the square every connector keeps its raw-route cost (exact integers for orthogonal, integer-square-root intervals for polyline). '
-    'Independence of VPSC results from ids/order is decided in C02 (permuted and reversed copies against one oracle optimum).',
+    'Independence of VPSC results from ids/order: every acyclic inequality system (6..19 variables, forks and diamonds) is solved by both solvers as given and as a relabelled, shuffled copy, the placements must agree to 1e-6; permuted and reversed copies are also judged against one oracle optimum in C02.',
     'Same process only. Option nudgeOrthogonalSegmentsConnectedToShapes (F13) switched off. Fixed-relative constraints left out of the layout repeats (F31).',
     'TLA+ record specification with bit-exact limb comparison and exact lattice translation', '4/C20')
 
